@@ -39,6 +39,11 @@ impl Stack {
         self.entries.is_empty()
     }
 
+    #[cfg(chalk_verif)]
+    pub(super) fn verif_len(&self) -> usize {
+        self.entries.len()
+    }
+
     pub(super) fn push(&mut self, coinductive_goal: bool) -> StackDepth {
         let depth = StackDepth {
             depth: self.entries.len(),
